@@ -581,6 +581,11 @@ def opParaObj (req : Json) : Json :=
   | none => Json.mkObj [("mk", mkJson .null)]
   | some (a, b) => Json.mkObj [("mk", mkJson (.lineRange a b))]
 
+/-- `{"op":"sentence","k":[0..4],"cur":n,"count":n,"fwd":b,"has_verb":b}` -/
+def opSentence (req : Json) : Json :=
+  let k : List Nat := (jarr req "k").toList.map (fun x => x.getNat?.toOption.getD 0)
+  Json.mkObj [("mk", mkJson ((SK.mk k).evalSentence (jnat req "cur") (jnat req "count") (jbool req "fwd") (jbool req "has_verb")))]
+
 def dispatch (req : Json) : Json :=
   match jstr req "op" with
   | "ping" => Json.mkObj [("pong", true)]
@@ -607,6 +612,7 @@ def dispatch (req : Json) : Json :=
   | "textobj_word" => opTextObjWord req
   | "paragraph" => opParagraph req
   | "para_obj" => opParaObj req
+  | "sentence" => opSentence req
   | op => Json.mkObj [("err", Json.str s!"unknown op {op}")]
 
 partial def loop (h : IO.FS.Stream) (out : IO.FS.Stream) : IO Unit := do
